@@ -39,8 +39,7 @@ CASES = [
       ("            estimator = clone(estimator=self.estimator, safe=False)", "            est = clone(estimator=self.estimator, safe=False)"),
       (FIT, "        est.fit(self.constraints.X, redY, **{self.sample_weight_name: redW})\n"),
       ("        self.n_oracle_calls += 1\n\n        return estimator", "        self.n_oracle_calls += 1\n\n        return est"),
-      expect="changed", why="OracleSrc.lean is unchanged; lifecycle.py (not in this group) emits the name of the local that "
-                            "holds the clone in LifecycleSrc.lean"),
+      why="lifecycle.py (other group) used to emit this local's name; it now canonicalises it"),
     R("r-eg-commute-signed", "commute the two summands of the signed weights",
       (SW, "        signed_weights = self.constraints.signed_weights(lambda_vec) + self.obj.signed_weights()\n")),
     R("r-eg-temps-signed", "temporaries for the two summands of the signed weights",
@@ -101,8 +100,7 @@ CASES = [
       (GFIT, "            est.fit(X, y_reduction, **{self.sample_weight_name: weights})\n"),
       ("                return current_estimator.predict(X)\n\n            self.predictors_.append(current_estimator)",
        "                return est.predict(X)\n\n            self.predictors_.append(est)"),
-      file=GS, expect="changed", why="OracleSrc.lean is unchanged; lifecycle.py (not in this group) emits the name of the local "
-                                     "that holds the clone in LifecycleSrc.lean"),
+      file=GS, why="lifecycle.py (other group) used to emit this local's name; it now canonicalises it"),
     R("r-grid-rename-flags", "rename objective_in_the_span / is_classification_reduction / objective / grid",
       ("            is_classification_reduction = True", "            is_clf = True"),
       ("            is_classification_reduction = False", "            is_clf = False"),
